@@ -2,6 +2,8 @@
 base strings, known-finding signatures (predicates over a failing case)."""
 
 KIND_NAMES = {
+    201: 'C02/new_pieces: metainfo.NewInfo+piece.NewPieces vs Geometry.new_pieces',
+    202: 'C02/calc_blocks: piece.calculateBlocks vs Geometry.calc_blocks',
     1601: 'C16/tier: tracker.Tier vs Tier.v (crun)',
 }
 
@@ -16,6 +18,11 @@ TRUSTED_COMMON = [
 ]
 
 PROPS = {
+    'C02': {
+        'kinds': {201: {'quick': 3000, 'thorough': 60000}, 202: {'quick': 3000, 'thorough': 60000}},
+        'trusted': [],
+        'assumptions': [],
+    },
     'C16': {
         'kinds': {1601: {'quick': 1500, 'thorough': 20000}},
         'trusted': ['sync/atomic CompareAndSwap/Load are linearizable (the model runs an announce as two atomic steps)',
